@@ -1088,3 +1088,109 @@ func (cx *Ctx) checkNoPassWithoutProvider(r *Report, ch *Chain, tag string) {
 		r.Fail("R-GUARD", tag+":no-pass-without-provider", w.FnPos(ch.Fn), "no step closure of the chain could be analysed")
 	}
 }
+
+// checkStorageContext (R-CTX): the context handed to storage is the request's. The issuer in effect travels in the
+// request context (IssuerFromContext), and storage implementations key what they return on it; a call that hands
+// storage context.Background() / context.TODO() (even wrapped in WithTimeout / WithValue) makes storage answer for
+// the default issuer. Only a positive finding is reported: a background root reaching the context argument.
+func (cx *Ctx) checkStorageContext(r *Report) {
+	w, fx := cx.W, cx.Fx
+	n := 0
+	for _, f := range w.sortedFuncs(cx.handlerScope()) {
+		for _, c := range callsIn(f) {
+			if storageMethod(c) == "" || len(c.Common().Args) == 0 {
+				continue
+			}
+			a0 := c.Common().Args[0]
+			if n := namedOf(a0.Type()); n == nil || n.Obj().Pkg() == nil || n.Obj().Pkg().Path() != "context" {
+				continue
+			}
+			n++
+			roots := map[string]bool{}
+			seen := map[ssa.Value]bool{}
+			var walk func(v ssa.Value, depth int)
+			walk = func(v ssa.Value, depth int) {
+				if v == nil || seen[v] || depth > 12 {
+					return
+				}
+				seen[v] = true
+				switch x := v.(type) {
+				case *ssa.Call:
+					switch nm := calleeName(x); {
+					case nm == "context.Background" || nm == "context.TODO":
+						roots["background@"+w.InstrPos(x)] = true
+					case strings.HasPrefix(nm, "context.With"):
+						if len(x.Call.Args) > 0 {
+							walk(x.Call.Args[0], depth+1)
+						}
+					case nm == "(*net/http.Request).Context":
+						roots["request"] = true
+					default:
+						if g := calleeOf(x); g != nil && g.Blocks != nil && g.Pkg != nil && isModulePath(g.Pkg.Pkg.Path()) {
+							for _, ret := range returnsOf(g) {
+								if len(ret.Results) > 0 {
+									walk(ret.Results[0], depth+1)
+								}
+							}
+						} else {
+							roots["other"] = true
+						}
+					}
+				case *ssa.Extract:
+					if cc, ok := x.Tuple.(*ssa.Call); ok && x.Index == 0 && strings.HasPrefix(calleeName(cc), "context.With") && len(cc.Call.Args) > 0 {
+						walk(cc.Call.Args[0], depth+1)
+					} else if ok {
+						if g := calleeOf(cc); g != nil && g.Blocks != nil && g.Pkg != nil && isModulePath(g.Pkg.Pkg.Path()) {
+							for _, ret := range returnsOf(g) {
+								if x.Index < len(ret.Results) {
+									walk(ret.Results[x.Index], depth+1)
+								}
+							}
+						} else {
+							roots["other"] = true
+						}
+					}
+				case *ssa.Parameter:
+					args := fx.argsOf[x]
+					if len(args) == 0 {
+						roots["param"] = true
+					}
+					for _, a := range args {
+						walk(a, depth+1)
+					}
+				case *ssa.Phi:
+					for _, e := range x.Edges {
+						walk(e, depth+1)
+					}
+				case *ssa.UnOp:
+					if cell := fx.ownerCell(x.X); cell != nil {
+						for _, s := range fx.storesToCell(cell) {
+							walk(s, depth+1)
+						}
+					} else {
+						roots["other"] = true
+					}
+				case *ssa.MakeInterface:
+					walk(x.X, depth+1)
+				case *ssa.ChangeInterface:
+					walk(x.X, depth+1)
+				case *ssa.ChangeType:
+					walk(x.X, depth+1)
+				default:
+					roots["other"] = true
+				}
+			}
+			walk(a0, 0)
+			bad := ""
+			for k := range roots {
+				if strings.HasPrefix(k, "background@") {
+					bad = strings.TrimPrefix(k, "background@")
+				}
+			}
+			r.Check(bad == "", "R-CTX", w.FuncKey(f)+":"+storageMethod(c), w.InstrPos(c), "the context handed to storage does not come from context.Background()/TODO()", "storage is called with a context rooted at context.Background()/TODO() (created at "+bad+"): the values of the request context - the issuer in effect among them - are lost, storage answers for the default issuer")
+		}
+	}
+	if n == 0 {
+		r.Fail("R-CTX", "#storage-calls", "", "no storage call with a context argument found in the handlers' scope")
+	}
+}
